@@ -109,6 +109,18 @@ func c16One(r *engine.Run, g geom.Geometry, c shapeCase) {
 				bad(fmt.Sprintf("ForceCoordinatesType(%v)", to), d)
 			}
 		}
+		// a dropped dimension is gone for good: forcing again adds zeros, never the old payload
+		for _, again := range allCT {
+			var h2 geom.Geometry
+			if !try("ForceCoordinatesType twice", func() { h2 = h.ForceCoordinatesType(again) }) {
+				continue
+			}
+			if hn, ok := desc("ForceCoordinatesType twice", h2); ok {
+				if d := refcodec.Diff(forceNode(forceNode(n, to), again), hn); d != "" {
+					bad(fmt.Sprintf("ForceCoordinatesType(%v).ForceCoordinatesType(%v)", to, again), d)
+				}
+			}
+		}
 	}
 	var f2 geom.Geometry
 	if try("Force2D", func() { f2 = g.Force2D() }) {
